@@ -8,7 +8,7 @@ RULE = ('well-formed messages: random subsets of the configured elements (every 
         '12 codecs x {binary, hex} bitmap x {packaged, generated configurations with PAN / PAN-PREFIX / PDS / ICC processors}; '
         'thorough adds every single element at many lengths; non-trivial = distinct message with at least one data element')
 EXHAUSTIVE = {}
-ASSUMPTIONS = ['decimal typed fields and non-canonical date strings are outside the model (Unmodelled, skipped by the comparer)',
+ASSUMPTIONS = ['decimal typed fields (generated in one configuration in five of the generated ones, judged by the round-trip oracle) and non-canonical date strings are outside the model (Unmodelled, skipped by the comparer)',
                'DE43_* entries are compared with the regex model (pattern translated from the configuration on every run)']
 
 
@@ -26,9 +26,12 @@ def gen(rng, tier):
         codec = iu.CODECS[i % len(iu.CODECS)]
         hexbm = (i // len(iu.CODECS)) % 2 == 1
         if i % 3 == 2:
-            cfg = iu.gen_config(rng, allbits=(i % 9 == 8), modelled_only=True)   # the theorem's domain: wf_cfgb
+            dec = i % 15 == 14
+            # (one generated configuration in five also has decimal typed elements: outside the model and the theorem's
+            # domain, judged by the round-trip oracle alone)
+            cfg = iu.gen_config(rng, allbits=(i % 9 == 8), modelled_only=True, decimals=dec)   # otherwise the theorem's domain: wf_cfgb
             m = iu.rand_message(rng, cfg, codec)
-            cases.append({'cfg': cfg, 'codec': codec, 'hex': hexbm, 'msg': iu.dict_text(m)})
+            cases.append(dict({'cfg': cfg, 'codec': codec, 'hex': hexbm, 'msg': iu.dict_text(m)}, **({'dec': True} if dec else {})))
         else:
             m = iu.rand_message(rng, pk, codec)
             cases.append({'cfg': None, 'codec': codec, 'hex': hexbm, 'msg': iu.dict_text(m)})
@@ -85,7 +88,7 @@ def judge(case, io_, mo):
     extra = [k for k in d if k not in m and not iu.derived_key(cfg, k)]
     if extra and not ps:
         ps.append({'kind': 'oracle', 'sig': 'undocumented-extra-key', 'msg': 'extra keys %s' % extra[:3]})
-    if mo is not None and not ps:
+    if mo is not None and not ps and not case.get('dec'):
         if mo[1] != 'OK 111':
             # generator and theorem domain disagree: the case is outside wf_cfgb / codec_okb / wf_msgb
             ps.append({'kind': 'corr', 'sig': 'domain', 'msg': 'generated message is not in the theorem domain (wf_cfg, codec_ok, wf_msg) = %s' % mo[1]})
